@@ -80,6 +80,11 @@ func (g *Gen) loopEnv(li *loopInfo, phis map[string]*Val) *Env {
 
 // resolveAt finds the value of the source variable `name` at the head of block h.
 func (g *Gen) resolveAt(h *ssa.BasicBlock, name string) *Val {
+	if len(h.Instrs) > 0 {
+		if v := g.allocNamed(h, h.Instrs[0], name); v != nil {
+			return v
+		}
+	}
 	var best ssa.Value
 	var bestAddr bool
 	bestKey := -1
@@ -448,7 +453,7 @@ func (g *Gen) specIdent(env *Env, e *Expr) *Val {
 		return v
 	}
 	if gv, ok := env.ghost[name]; ok {
-		return scalar(g.eng.ghostSort(name), gv, nil)
+		return scalar(g.ghostSortOf(name), gv, nil)
 	}
 	if sig, ok := g.eng.prelude.sigs[name]; ok && len(sig.args) == 0 {
 		g.eng.usePrelude(g, name)
@@ -571,6 +576,12 @@ func (g *Gen) specCall(env *Env, e *Expr) *Val {
 		v := g.specVal(env, a)
 		if v == nil {
 			return nil
+		}
+		// a slice passed where the function expects (row, offset, length)
+		if v.Sort == "Slice" && len(terms) < len(sig.args) && strings.HasPrefix(sig.args[len(terms)], "(Array") {
+			srt := strings.TrimSuffix(strings.TrimPrefix(sig.args[len(terms)], "(Array Int "), ")")
+			terms = append(terms, fmt.Sprintf("(select %s %s)", env.heap[srt], v.S[0]), v.S[1], v.S[2])
+			continue
 		}
 		if v.Sort == "Bool" || !v.Agg && len(v.S) == 1 {
 			terms = append(terms, v.S[0])
